@@ -28,7 +28,13 @@ TECHNIQUE = "static analysis: dominance / who-may-call / call-graph closure / ar
 
 def j1(led, rid, ctx):
     lib = ctx.lib
-    f = lib.method("NogoodPropagator", "remove_high_lbd_nogoods")
+    from ..inline import view
+    f0 = lib.method("NogoodPropagator", "remove_high_lbd_nogoods")
+    # private helpers of the propagator that the reduction is split into are spliced in; the test
+    # that protects propagating nogoods stays a call (it is judged on its own below)
+    f = view(lib, f0, want=lambda g: g.file == f0.file and g.kind != "Closure" and g.vis != "pub"
+             and "NogoodPropagator" in (g.self_ty or "") and g.name not in ("is_nogood_propagating", "remove_nogood_from_watch_list")
+             and not g.name.startswith("remove_"))
     R = resolver(f)
     cfg = f.cfg
     # deletion sites: is_deleted = true, delete_ids.push(id)
@@ -199,7 +205,10 @@ def j1_table(led, rid, ctx):
 
 def j2(led, rid, ctx):
     lib = ctx.lib
-    f = lib.method("ConstraintSatisfactionSolver", "restart_during_search")
+    from ..inline import view
+    f0 = lib.method("ConstraintSatisfactionSolver", "restart_during_search")
+    f = view(lib, f0, want=lambda g: g.file == f0.file and g.kind != "Closure" and g.vis != "pub" and g.name != "backtrack"
+             and len(g.blocks) <= 12)
     allowed = {"backtrack", "notify_restart", "get_decision_level", "len", "is_restart_pointless"}
     other = sorted({c.name for c in f.calls if not c.exp and c.name not in allowed and
                     not (c.target_def or "").startswith(("core::", "std::"))})
